@@ -507,7 +507,7 @@ impl WhenCalledBuilder<'_> {
     /// ```
     pub fn will_return_boolean(self, value: bool) {
         // Ensure the target function returns a bool
-        if !self.expected_signature.trim().ends_with("-> bool") {
+        if !signature_returns_bool(self.expected_signature) {
             panic!(
                 "Signature mismatch: will_return_boolean requires a function returning bool but got {}",
                 self.expected_signature
@@ -517,6 +517,30 @@ impl WhenCalledBuilder<'_> {
         let guard = self.when.will_return_boolean_guard(value);
         self.lib.guards.push(guard);
     }
+}
+
+/// Tells whether the fn-pointer type name `sig` (`[unsafe] [extern "abi"] fn(<params>) [-> <ret>]`)
+/// declares `bool` as its return type. The return type is what follows the parenthesis closing
+/// the parameter list of the outermost `fn`, so `fn() -> fn() -> bool` does not qualify.
+fn signature_returns_bool(sig: &str) -> bool {
+    let Some(start) = sig.find("fn(") else {
+        return false;
+    };
+    let params = start + 2;
+    let mut depth = 0usize;
+    for (i, c) in sig[params..].char_indices() {
+        match c {
+            '(' => depth += 1,
+            ')' => {
+                depth -= 1;
+                if depth == 0 {
+                    return sig[params + i + 1..].trim() == "-> bool";
+                }
+            }
+            _ => {}
+        }
+    }
+    false
 }
 
 pub struct WhenCalledBuilderAsync<'a> {
